@@ -210,9 +210,23 @@ partial def parseQuery : SExp → Option (Query × Outcome)
     | some m, some s, some n =>
       -- construction order of BooleanQuery.initPrimarySearchers: mustNots, musts, shoulds
       let firstBad := ((n ++ m ++ s).map (·.2)).find? (· != .ok)
+      -- a584889: `len(shoulds) == 0 && minShould > 0` returns MatchNone BEFORE any clause is constructed
+      let firstBad := if s.isEmpty && min.toNat! > 0 then none else firstBad
       some (.bool (m.map (·.1)) (s.map (·.1)) (n.map (·.1)) min.toNat!, firstBad.getD .ok)
     | _, _, _ => none
   | _ => none
+
+/-- the outcome of `Searcher()` on a tree where fuzziness 0 has been repaired (2b928d2: an exact term
+search instead of a panic): the first ERROR in construction order, panics ignored -/
+partial def outcomeRepaired : SExp → Outcome
+  | .list [.atom "fz", .atom _, .atom _, .atom fuzz, .atom _, .list _] =>
+    match fuzz.toInt? with
+    | some z => if fuzzyOutcome z == .err then .err else .ok
+    | none => .ok
+  | .list [.atom "b", .atom min, .list ms, .list ss, .list ns] =>
+    if ss.isEmpty && min.toNat! > 0 then .ok else
+    (((ns ++ ms ++ ss).map outcomeRepaired).find? (· != .ok)).getD .ok
+  | _ => .ok
 
 /-! ### geo: points within relative 1e-3 of an edge / of the distance threshold are classified `na` -/
 def absF (x : Float) : Float := if x < 0 then -x else x
@@ -352,12 +366,16 @@ def runQuery (st : DState) (mode : String) (e : SExp) (impl0 : String) : String 
     match outcome with
     | .err => "err" ++ sep ++ "ok br=expect-err"
     | _ =>
+      if outcome == .panic && impl == "err" && outcomeRepaired e == .err then
+        -- fuzziness 0 no longer panics, and a later clause of the same tree is an error
+        "err" ++ sep ++ "ok br=expect-err,repaired-fuzzy0"
+      else
       let spec := showIds idx (denote idx q)
       let (model, plan, variant) := chooseVariant sn idx bound mode q outcome impl
       let kinds := (planKinds plan).eraseDups
       -- the abstract-leaf tree and the per-segment tree must agree (plan_exact / plan_exact_seg)
       let agree := match sn with
-        | some _ => showIds idx (plan.run bound (Plan.width plan)) == model
+        | some sn' => plan.run bound (Plan.width plan) == plan.runSeg sn' (Plan.width plan)
         | none => true
       let br := " br=" ++ ",".intercalate (kinds ++ (if sn.isSome then ["seg-machine"] else ["no-layout"]) ++
                   (if agree then [] else ["MODEL-LEAVES-DISAGREE"]) ++ (if q.WF then [] else ["not-wf"]) ++
